@@ -178,6 +178,11 @@ def _weights(rng, n, pairs, mode):
         return [(u, v, rng.randint(0, 5) + p[v] - p[u]) for u, v in pairs], False
     if mode == "decimal":
         return [(u, v, rng.randint(0, 40) / 10.0) for u, v in pairs], True
+    if mode == "tiny-neg":
+        # multiples of 2**-40 (exactly representable, sums exact): a negative cycle of total weight -2**-40 is as much a
+        # negative cycle as one of weight -1; no absolute tolerance may hide it
+        unit = 2.0 ** -40
+        return [(u, v, rng.choice([-2, -1, 0, 1, 1, 2, 3, 5]) * unit) for u, v in pairs], False
     raise ValueError(mode)
 
 
@@ -220,7 +225,7 @@ def _gen(stratum, rng, tier, auto):
         n = rng.randint(1, 7)
         pairs = _pairs(rng, n, rng.randint(0, 2 * n + 3), dup=0.3, anti=0.25)
         mode = rng.choice(["nonneg", "pos", "dyadic", "potential", "potential", "neg", "neg-mild", "ties", "decimal",
-                           "float-int"])
+                           "float-int", "tiny-neg"])
         edges, approx = _weights(rng, n, pairs, mode)
         jobs = [("floyd_warshall", {"directed": True}), ("floyd_warshall", {"directed": False}), ("floyd_warshall", {})]
         return _case("fw", n, edges, 0, jobs, approx, auto)
@@ -228,7 +233,7 @@ def _gen(stratum, rng, tier, auto):
         n = rng.randint(1, 8)
         pairs = _pairs(rng, n, rng.randint(0, 2 * n + 3))
         mode = rng.choice(["potential", "potential", "potential", "neg", "neg-mild", "neg-mild", "nonneg", "dyadic-neg",
-                           "decimal", "zero-heavy"])
+                           "decimal", "zero-heavy", "tiny-neg"])
         edges, approx = _weights(rng, n, pairs, mode)
         src = _src(rng, n, pairs)
         jobs = [("bellman_ford", {} if t is None else {"target": t}) for t in _targets(rng, n, src)]
@@ -442,19 +447,23 @@ class _Panic:
 _SHL = {}  # per-case shared argument lists (reset by run): callers reuse their edge lists across calls
 
 
-def _args_for(name, case, kw):
+def _args_for(name, case, kw, shared=True):
     n, src = case["n"], case["src"]
     kw = dict(kw)
     edges = case["edges"]
     ab = bool(kw.pop("_abs", False))
     if ab:
         edges = [(u, v, abs(w)) for u, v, w in edges]
-    # the same list object goes to every call of the case that takes this edge collection: a back-end (or adapter)
-    # that edits its input in place then shows up as a wrong answer of a later call
-    if ("w", ab) not in _SHL:
-        _SHL[("w", ab)] = list(edges)
-        _SHL[("u", ab)] = [(u, v) for u, v, _ in edges]
-    we, ue = _SHL[("w", ab)], _SHL[("u", ab)]
+    # shared=True: the same list object goes to every call of the case that takes this edge collection: a back-end
+    # (or adapter) that edits its input in place then shows up as a wrong answer of a later call.
+    # shared=False: pristine copies (what the judge and its oracle work from).
+    if not shared:
+        we, ue = list(edges), [(u, v) for u, v, _ in edges]
+    else:
+        key = (id(case), ab)  # (the exhaustive stratum runs many small sub-cases inside one case)
+        if key not in _SHL:
+            _SHL[key] = (case, list(edges), [(u, v) for u, v, _ in edges])
+        _c, we, ue = _SHL[key]
     if name == "floyd_warshall":
         return (n, we), kw
     if name == "bellman_ford":
@@ -1018,13 +1027,14 @@ def _run_job(obs, case, name, kw):
 
     short, _, kernel = FUNCS[name]
     args, kw2 = _args_for(name, case, kw)
-    J = _Judge(obs, case, name, args, kw2)
+    pristine, _kw = _args_for(name, case, kw, shared=False)
+    J = _Judge(obs, case, name, pristine, kw2)
     backends = ["python", "rust", "default"] + (["auto"] if case.get("auto") else [])
     meanings = {}
     results = {}
     for be in backends:
         k0 = _kcount[kernel]
-        a2 = tuple(list(a) if isinstance(a, list) else a for a in args)
+        a2 = args  # the caller's own (shared) objects, not copies
         res = _invoke(obs, name, a2, kw2, be, case.get("kwcall", False))
         used = _kcount[kernel] - k0
         if be == "python":
@@ -1040,7 +1050,7 @@ def _run_job(obs, case, name, kw):
         if not all(hasattr(res, f) for f in ("solution", "objective", "status")):
             obs.violate(f"{short}.{be}.malformed", f"{name}{_short(args, 500)} {kw2}: returned {_short(res, 200)}, not a Result")
             continue
-        if a2[1] != (args[1]):
+        if a2[1] != pristine[1]:
             obs.event(f"info.{short}.input-mutated")
         results[be] = res
         meanings[be] = J.interp(be, res)
